@@ -122,6 +122,8 @@ package cache
 //@   ensures[C09,C05] @limit old(ca.Sizes[key]) > 0 && len(value) > int(old(ca.Sizes[key])) ==> result != nil
 //@   ensures[C09,C05] @missing !old(visible(ca, key)) ==> result != nil
 //@   ensures[C09] @capacity ca.CacheSize > 0 && old(total(ca)) - old(len(ca.Cache[scope(ca, key)][key])) + len(value) > int(ca.CacheSize) ==> result != nil
+//@   ensures[C09,C05] @accepts old(visible(ca, key)) && (old(ca.Sizes[key]) == 0 || len(value) <= int(old(ca.Sizes[key])))
+//@     && (ca.CacheSize == 0 || old(total(ca)) - old(len(ca.Cache[scope(ca, key)][key])) + len(value) <= int(ca.CacheSize)) ==> result == nil
 //@   ensures[C09] @rejected result != nil ==> unchanged(ca.CacheUseSize) && total(ca) == old(total(ca))
 //@     && in(key, ca.Cache[old(scope(ca, key))]) == old(in(key, ca.Cache[scope(ca, key)]))
 //@     && ca.Cache[old(scope(ca, key))][key] == old(ca.Cache[scope(ca, key)][key])
